@@ -461,8 +461,10 @@ def _parseNormalTextgrid(data: str) -> Dict:
                 tierData = []
             else:
                 raise
+        # A tier's name may span several lines (like a label); it is the
+        # only quoted text left in the header after the class row
         tierName = reSearch(
-            r"name ?= ?\"(.*)\"\s*$", header, flags=re.MULTILINE
+            r"name ?= ?\"(.*)\"\s*$", header, flags=re.MULTILINE | re.DOTALL
         ).groups()[0]
         tierName = re.sub(r'""', '"', tierName)
 
